@@ -285,11 +285,12 @@ def evalC15 (v : Variant) (attr : Toks) (item : Item) (m : Outcome) (r : Real) (
     | .diag msgs _ => (false, some msgs, true)
     | .panic _ => (true, none, true)
   -- the wording of a diagnostic is not part of the correspondence: where the model and the macro both
-  -- answer with one diagnostic, the macro's text is read as a relabelling of the model's message (that
+  -- answer with a diagnostic, the text of the macro's *first* one is read as a relabelling of the model's message
+  -- (the macro may go on and report further, independent mistakes of the same invocation) (that
   -- the relabelling keeps the messages apart is checked over the whole run, tools/runner.py)
   let rd : Option (List String) :=
     match m, r with
-    | .diag mm, .diag [_] _ => some [mm]
+    | .diag mm, .diag (_ :: rest) _ => some (mm :: rest)
     | _, _ => rd0
   let (mp, md) : Bool × Option (List String) :=
     match m with
@@ -299,12 +300,12 @@ def evalC15 (v : Variant) (attr : Toks) (item : Item) (m : Outcome) (r : Real) (
     | .panic _ => (true, none)
   -- where the diagnostic points
   let mloc : Option Locus := match m with | .diag _ => diagLocus v attr item | _ => none
-  let rlocS : String := match r with | .diag [_] [l] => l | _ => "-"
+  let rlocS : String := match r with | .diag (_ :: _) (l :: _) => l | _ => "-"
   let rloc : Option Locus := parseLocus rlocS
   let mAt : Bool := match m with | .diag msg => P_C15_at attr item (some (msg, mloc)) | _ => true
-  let rAt : Bool := match m, r with | .diag msg, .diag [_] _ => !cmp || P_C15_at attr item (some (msg, rloc)) | _, _ => true
+  let rAt : Bool := match m, r with | .diag msg, .diag (_ :: _) _ => !cmp || P_C15_at attr item (some (msg, rloc)) | _, _ => true
   let locK : Bool := match m, r with
-    | .diag _, .diag [_] _ => !cmp || decide (mloc = rloc)
+    | .diag _, .diag (_ :: _) _ => !cmp || decide (mloc = rloc)
     | _, _ => true
   let pm := P_C15 attr item mp md true && mAt
   let pr := P_C15 attr item rp rd parsed && rAt
